@@ -1,0 +1,28 @@
+//go:build verif
+
+package verifier
+
+import "github.com/zmap/zcrypto/x509"
+
+// Verification hooks for property C11 (add-only, compiled with -tags verif).
+
+// ZVMaxIntermediateCount is the unexported depth bound of continueWalking.
+const ZVMaxIntermediateCount = maxIntermediateCount
+
+// ZVCanAddToChain runs the unexported canAddToChain and classifies its result:
+// 0 = nil, 1 = NotAuthorizedToSign, 2 = TooManyIntermediates, 3 = any other error.
+func ZVCanAddToChain(c *x509.Certificate, certType x509.CertificateType, currentChain x509.CertificateChain) int {
+	err := canAddToChain(c, certType, currentChain)
+	if err == nil {
+		return 0
+	}
+	if e, ok := err.(x509.CertificateInvalidError); ok {
+		switch e.Reason {
+		case x509.NotAuthorizedToSign:
+			return 1
+		case x509.TooManyIntermediates:
+			return 2
+		}
+	}
+	return 3
+}
